@@ -10,6 +10,8 @@ mod tests_app;
 mod tests_block_ordering;
 #[cfg(test)]
 mod tests_breaking_changes;
+#[cfg(all(test, feature = "verif"))]
+mod verif;
 
 pub(crate) mod vote_extension;
 
